@@ -38,13 +38,17 @@ fn exact_float(name: &str) -> bool {
 /// compare two outputs: floats within `t`, everything else exactly. Returns Err(description) on mismatch and
 /// Ok(values_bit_identical)
 fn cmp(name: &str, a: &Out, b: &Out, t: f64, skip_signals: bool, sar_first: bool) -> Result<bool, String> {
+	cmp_rel(name, a, b, t, 1e-9, skip_signals, sar_first)
+}
+
+fn cmp_rel(name: &str, a: &Out, b: &Out, t: f64, rel: f64, skip_signals: bool, sar_first: bool) -> Result<bool, String> {
 	if a.tag != b.tag {
 		return Err(format!("{a:?} vs {b:?}"));
 	}
 	// absolute allowance, or 1e-9 relative for quotients that blow up next to a zero denominator (ill-conditioned,
 	// DESIGN.md §3.3) - five orders of magnitude tighter than any seeding or formula error
 	let fcmp = |x: f64, y: f64, t: f64| -> bool {
-		x == y || (x - y).abs() <= t || (x - y).abs() <= 1e-9 * x.abs().max(y.abs()) || (x.is_nan() && y.is_nan())
+		x == y || (x - y).abs() <= t || (x - y).abs() <= rel * x.abs().max(y.abs()) || (x.is_nan() && y.is_nan())
 	};
 	match a.tag {
 		T_FLOAT => {
@@ -124,9 +128,14 @@ fn cmp(name: &str, a: &Out, b: &Out, t: f64, skip_signals: bool, sar_first: bool
 
 /// few-ulp perturbation of an input
 pub fn perturb(x: &sut::In) -> sut::In {
+	perturb_salt(x, 0)
+}
+
+/// the same with another choice of the multipliers (several perturbed replicas sample the conditioning)
+pub fn perturb_salt(x: &sut::In, salt: u64) -> sut::In {
 	// every field of one input is scaled by the same factor 1 + m * eps, m in {-3..3} \ {0} chosen from a hash of the
 	// input: identical inputs stay identical, candles stay valid, differences and sums move by a few ulp
-	let h = x.words().iter().fold(0x9E37u64, |h, w| (h ^ w).wrapping_mul(0x0000_0100_0000_01b3).rotate_left(23));
+	let h = x.words().iter().fold(0x9E37u64 ^ salt.wrapping_mul(0x9E37_79B9_7F4A_7C15), |h, w| (h ^ w).wrapping_mul(0x0000_0100_0000_01b3).rotate_left(23));
 	let m = [-3.0, -2.0, -1.0, 1.0, 2.0, 3.0][(h % 6) as usize];
 	let factor = 1.0 + m * (yata::core::ValueType::EPSILON as f64);
 	let p = |v: f64| -> f64 {
@@ -147,14 +156,21 @@ pub fn perturb(x: &sut::In) -> sut::In {
 /// one-ulp perturbation of the inputs already moves it by more than the allowance - then "up to rounding"
 /// says nothing about it and the step is exempt
 fn ill_conditioned(f: &meng::Factory, name: &str, stream: &[sut::In], orig: &[Out], upto: usize, t: f64) -> bool {
-	let pert: Vec<sut::In> = stream[..=upto.min(stream.len() - 1)].iter().map(perturb).collect();
+	// three differently perturbed replicas; a movement of a quarter of the allowance already counts: the two replicas
+	// under comparison differ by *their* rounding histories, of which a perturbed replica is one more sample
+	(0..3u64).any(|salt| ill_conditioned_1(f, name, stream, orig, upto, t / 4.0, 2.5e-10, salt))
+}
+
+#[allow(clippy::too_many_arguments)]
+fn ill_conditioned_1(f: &meng::Factory, name: &str, stream: &[sut::In], orig: &[Out], upto: usize, t: f64, rel: f64, salt: u64) -> bool {
+	let pert: Vec<sut::In> = stream[..=upto.min(stream.len() - 1)].iter().map(|x| perturb_salt(x, salt)).collect();
 	let Ok(ap) = meng::run_a(f, &pert) else { return true };
 	if std::env::var("VERIF_DEBUG").is_ok() {
 		let j = ap.len() - 1;
 		eprintln!("conditioning: perturbed[{j}] = {:?}, original[{j}] = {:?}", ap[j], orig[j]);
 	}
 	// generous: 64 ulp of relative movement of the inputs is still "rounding"
-	(0..ap.len()).any(|j| match cmp(name, &ap[j], &orig[j], t, true, false) {
+	(0..ap.len()).any(|j| match cmp_rel(name, &ap[j], &orig[j], t, rel, true, false) {
 		Ok(_) => false,
 		Err(_) => {
 			// a relative move of the order of the perturbation itself is well-conditioned
